@@ -855,6 +855,7 @@ def intrinsic(interp, f, args, kwargs, node, frame):
                 return sym.elementwise(lambda *ys: Sym(func(*[sym.to_real(lift(y)) for y in ys])), list(xs), rng)
             return Sym(func(*[sym.to_real(lift(x)) for x in xs]))
         call.__name__ = name
+        call.__pyvc_native__ = True
         return call
     if n == "use_axiom":
         name = args[0]
@@ -874,10 +875,14 @@ def intrinsic(interp, f, args, kwargs, node, frame):
     if n == "expect_raises":
         from .interp import PyRaise
         exc_cls, fn = args[0], args[1]
+        saved = ctx.spec_mode
+        ctx.spec_mode = 0      # the call itself is executed (it may fork and raise), not turned into a formula
         try:
             interp.call_value(fn, list(args[2:]), kwargs, node, frame)
         except PyRaise as pr:
             return isinstance(pr.exc, exc_cls)
+        finally:
+            ctx.spec_mode = saved
         return False
     raise OutsideSubset("intrinsic %s" % n)
 
